@@ -729,3 +729,190 @@ func genReceiver(prop string) func(tier string, seed uint64, idx int) interface{
 		return x.sc
 	}
 }
+
+// garbage returns bytes no MQTT decoder accepts after a CONNECT.
+func (x *g) garbage() []byte {
+	r := x.r
+	switch r.Intn(4) {
+	case 0:
+		return []byte{0xf0, 0x00} // reserved packet type 15
+	case 1:
+		return []byte{0x00, 0x00} // reserved packet type 0
+	case 2:
+		return []byte{0x30, 0xff, 0xff, 0xff, 0xff, 0x01} // remaining length with 5 bytes
+	default:
+		b := make([]byte, 4+r.Intn(12))
+		for i := range b {
+			b[i] = byte(r.Intn(256))
+		}
+		b[0] = 0x62 // PUBREL with wrong flags... whatever follows is wrong too
+		b[1] = 0x02
+		return b[:4]
+	}
+}
+
+// genWill is the C09 profile.
+func genWill(prop string) func(tier string, seed uint64, idx int) interface{} {
+	return func(tier string, seed uint64, idx int) interface{} {
+		x := newGen(seed, prop, idx, tier)
+		r := x.r
+		x.sc.Profile = "will"
+		x.knobs()
+		x.sc.Knobs.LinkCap = 65536
+		x.sc.Knobs.MaxQoS = byte([]int{2, 2, 2, 1, 0}[r.Intn(5)])
+		x.alphabet(false)
+		nm := 1 + r.Intn(3)
+		nc := nm + 1
+		x.seq = make([]int, nc)
+		x.pid = make([]int, nc)
+		// witness (client 0) + optional in-process witness
+		w := Client{Role: "witness"}
+		w.Ops = append(w.Ops, x.connect(0, true), Op{K: "sub", PID: 1, Filters: []string{"#"}, QoSs: []byte{byte([]int{2, 2, 1, 0}[r.Intn(4)])}})
+		rounds := 1 + r.Intn(3)
+		for i := 0; i <= rounds; i++ {
+			w.Ops = append(w.Ops, Op{K: "barrier"}, Op{K: "ping"})
+		}
+		x.sc.Clients = append(x.sc.Clients, w)
+		if r.Bool(1, 3) {
+			x.sc.Inproc = append(x.sc.Inproc, InprocOp{K: "sub", CB: 0, Filter: "#", QoS: byte(r.Intn(3))}, InprocOp{K: "barrier"})
+		}
+		for ci := 1; ci < nc; ci++ {
+			cl := Client{}
+			cl.Ops = append(cl.Ops, Op{K: "barrier"})
+			lives := 1 + r.Intn(rounds)
+			for life := 0; life < lives; life++ {
+				op := Op{K: "connect", CID: fmt.Sprintf("m%d", ci), Clean: r.Bool(1, 2), KA: 600}
+				if r.Bool(3, 4) {
+					sz := 8 + r.Intn(200)
+					if r.Bool(1, 8) {
+						sz = 0
+					}
+					if r.Bool(1, 10) {
+						sz = 2000 + r.Intn(5000)
+					}
+					op.Will = &Will{Topic: "will/" + x.topic(), QoS: byte(r.Intn(3)), Retain: r.Bool(1, 4), Size: sz}
+				}
+				end := r.Intn(8)
+				if end == 7 && life != lives-1 {
+					end = 2 // only the last life is left open until the end
+				}
+				if end == 5 {
+					op.KA = 1 + r.Intn(3)
+				}
+				cl.Ops = append(cl.Ops, op)
+				// some traffic
+				for k := r.Intn(4); k > 0; k-- {
+					switch r.Intn(3) {
+					case 0:
+						cl.Ops = append(cl.Ops, x.pub(ci, 2))
+					case 1:
+						cl.Ops = append(cl.Ops, x.sub(ci, 2))
+					default:
+						cl.Ops = append(cl.Ops, Op{K: "ping"})
+					}
+				}
+				switch end {
+				case 0:
+					cl.Ops = append(cl.Ops, Op{K: "disc"})
+				case 1:
+					// DISCONNECT right behind unprocessed traffic
+					p1 := x.pub(ci, 1)
+					p1.NoWait = true
+					p2 := x.pub(ci, 0)
+					cl.Ops = append(cl.Ops, p1, p2, Op{K: "disc"})
+				case 2:
+					cl.Ops = append(cl.Ops, Op{K: "close"})
+				case 3:
+					cl.Ops = append(cl.Ops, Op{K: "rst"})
+				case 4:
+					// cut inside a packet
+					pk := []byte{0x30, 0x20, 0x00, 0x03, 'c', 'u', 't', 1, 2, 3, 4}
+					cl.Ops = append(cl.Ops, Op{K: "raw", Raw: pk, Cut: 3 + r.Intn(len(pk)-3)})
+				case 5:
+					// keep-alive expiry: stay silent for well over 1.5 x K
+					cl.Ops = append(cl.Ops, Op{K: "sleep", D: op.KA*2000 + 1500})
+				case 6:
+					cl.Ops = append(cl.Ops, Op{K: "raw", Raw: x.garbage()}, Op{K: "waitdead"})
+				default:
+					// left open: ended by the director at the very end
+				}
+				cl.Ops = append(cl.Ops, Op{K: "barrier"})
+			}
+			x.sc.Clients = append(x.sc.Clients, cl)
+		}
+		return x.sc
+	}
+}
+
+// genSession is the C10 profile.
+func genSession(prop string) func(tier string, seed uint64, idx int) interface{} {
+	return func(tier string, seed uint64, idx int) interface{} {
+		x := newGen(seed, prop, idx, tier)
+		r := x.r
+		x.sc.Profile = "session"
+		x.knobs()
+		x.sc.Knobs.LinkCap = 65536
+		x.sc.Knobs.MaxQoS = byte([]int{2, 2, 2, 1}[r.Intn(4)])
+		x.alphabet(false)
+		nid := 1 + r.Intn(3)
+		nc := nid + 1
+		x.seq = make([]int, nc)
+		x.pid = make([]int, nc)
+		var pool []string
+		rounds := 2 + r.Intn(4)
+		for ci := 0; ci < nid; ci++ {
+			cl := Client{}
+			var mine []string
+			for life := 0; life < rounds; life++ {
+				clean := r.Bool(2, 5)
+				op := Op{K: "connect", CID: fmt.Sprintf("s%d", ci), Clean: clean, KA: 600}
+				cl.Ops = append(cl.Ops, op, Op{K: "ping"})
+				if clean {
+					mine = nil
+				}
+				for k := r.Intn(4); k > 0; k-- {
+					if r.Bool(2, 3) || len(mine) == 0 {
+						s := x.sub(ci, 2)
+						mine = append(mine, s.Filters...)
+						pool = append(pool, s.Filters...)
+						cl.Ops = append(cl.Ops, s)
+					} else {
+						f := mine[r.Intn(len(mine))]
+						cl.Ops = append(cl.Ops, Op{K: "unsub", PID: x.nextPID(ci), Filters: []string{f}})
+					}
+				}
+				cl.Ops = append(cl.Ops, Op{K: "barrier"}) // the publisher probes here
+				cl.Ops = append(cl.Ops, Op{K: "barrier"})
+				if life == rounds-1 && r.Bool(1, 2) {
+					break // left open
+				}
+				cl.Ops = append(cl.Ops, Op{K: []string{"disc", "close", "rst"}[r.Intn(3)]})
+				if r.Bool(7, 10) {
+					cl.Ops = append(cl.Ops, Op{K: "barrier"}) // otherwise: immediate reconnect
+				}
+			}
+			x.sc.Clients = append(x.sc.Clients, cl)
+		}
+		pi := nc - 1
+		cl := Client{}
+		cl.Ops = append(cl.Ops, x.connect(pi, true))
+		for i := 0; i < 3*rounds; i++ {
+			cl.Ops = append(cl.Ops, Op{K: "barrier"})
+			for j := 1 + r.Intn(3); j > 0; j-- {
+				x.seq[pi]++
+				t := x.topic()
+				if len(pool) > 0 && r.Bool(4, 5) {
+					t = x.concretize(pool[r.Intn(len(pool))])
+				}
+				op := Op{K: "pub", Topic: t, QoS: byte(r.Intn(3)), Size: 8 + r.Intn(40), Seq: x.seq[pi]}
+				if op.QoS > 0 {
+					op.PID = x.nextPID(pi)
+				}
+				cl.Ops = append(cl.Ops, op)
+			}
+			cl.Ops = append(cl.Ops, Op{K: "ping"})
+		}
+		x.sc.Clients = append(x.sc.Clients, cl)
+		return x.sc
+	}
+}
